@@ -35,7 +35,8 @@ def c03(ctx, replay):
     recv_rows(ctx, "c03", n, True, on)
     chunks = "whole,one" if ctx.quick() else "whole,one,rand"
     modes = "ct,nct" if ctx.quick() else "ct,nct,c_nct,s_nct"
-    rep = ctx.drive("recv", ["-letters", lp, "-rows-off", off, "-rows-on", on, "-seed", ctx.seed, "-chunks", chunks, "-modes-on", modes])
+    sizes = "120-130,4085-4105,8180-8200" if ctx.quick() else "120-130,4080-4112,8176-8208,12270-12300,32755-32780,65525-65545"
+    rep = ctx.drive("recv", ["-letters", lp, "-rows-off", off, "-rows-on", on, "-seed", ctx.seed, "-chunks", chunks, "-modes-on", modes, "-sizes", sizes], timeout=7200)
     ctx.absorb(rep)
     ctx.extra["exhaustive"] = True
     ctx.extra["rule"] = ("every frame stream of at most %d letters over the 43-letter alphabet of spec/WSRecv.tla "
@@ -401,3 +402,34 @@ def c10(ctx, replay):
                          "blocked on the transport, inside a message, on the message lock or on a pong; x role x compression; afterwards a full round trip "
                          "must succeed or the connection must be closed; hook traces validated against the hand-off protocol of TraceConn.tla")
     ctx.assumptions += ["'promptly' = 2 s measured", "Apalache 0.58 discharges the inductive invariant of the abstraction; its binding to the code is the TraceConn hand-off rules"]
+
+
+SIG_C07_TRACE = {"pooled-object-handed-out-while-owned-by-another-connection", "pooled-object-put-by-a-connection-that-does-not-own-it",
+                 "pooled-object-put-while-a-call-into-it-is-in-progress", "use-of-pooled-object-not-owned-by-this-connection"}
+
+
+@check("C07")
+def c07(ctx, replay):
+    rec, _ = ctx.tlc("WSPool", "WSPool.cfg", name="pool-ownership-model")
+    ctx.count_model(rec)
+    rec, out = ctx.tlc("WSPool", "WSPool.dev.cfg", expect_ok=False, name="pool-ownership-model-with-pre-fix-deviation")
+    if "is violated" not in out:
+        raise Infra("model regression: ReadAgainUsesRef is no longer caught")
+    ctx.extra["model_catches_deviation"] = {"ReadAgainUsesRef": True}
+    trace = ctx.path("pool.ndjson")
+    rep = ctx.drive("pool", ["-n", 300 if ctx.quick() else 4000, "-seed", ctx.seed, "-pool-trace", trace], timeout=2400)
+    ctx.absorb(rep)
+    rej, _ = trace_validate(ctx, "TracePool", "TracePool.cfg", trace, name="TracePool")
+    absorb_rejections(ctx, rej, "TracePool", trace, only=SIG_C07_TRACE)
+    if not ctx.quick():
+        # pool events of the concurrent campaign (many connections in flight at once), under the same ownership rules
+        conn = ctx.path("conn.ndjson")
+        ctx.drive("conc", ["-n", 600, "-seed", ctx.seed, "-conn-trace", conn, "-global-order"], timeout=2400)
+        rej, _ = trace_validate(ctx, "TracePool", "TracePool.cfg", conn, name="TracePool(conc)")
+        absorb_rejections(ctx, rej, "TracePool", conn, only=SIG_C07_TRACE)
+    ctx.extra["rule"] = ("seeded programs over 2-3 concurrently open connections (both roles, four takeover modes) sharing the pools: start a compressed "
+                         "fragmented message, read part, read to the end, READ AGAIN after the end, second Reader while open, ping mid-message, peer Close "
+                         "frame mid-message, CloseNow, context expiry mid-message, new connections reusing the pools; every fourth program starts with the "
+                         "scripted hand-over (A ends, B starts, A reads again); payloads are connection-tagged and every returned byte is attributed; "
+                         "all pool events validated by TracePool.tla in one global order; distinct = distinct operation sequences")
+    ctx.assumptions += ["programs run in one goroutine so that sync.Pool hands objects over deterministically; pool reuse only affects reach, not verdicts"]
